@@ -40,6 +40,12 @@ def rewrite(rng, text, cell_edges=False, skip_p=0.35, lead_p=0.0):
             # in-domain stream: the first and the last word of a table cell are left alone (open finding
             # F-diff-cell-edge: a change next to the virtual ' | ' / '# ' text of a cell is placed inside it)
             ws = ws[1:-1]
+        if re.match(r"^(\*\*_?|_\*\*)[^a-z*_]+(_?\*\*|\*\*_)", seg):
+            # the paragraph starts with a bold run without lower-case letters ('**P**rice'): rewriting the rest could
+            # leave only that run as direct text and flip the ALL-CAPS heading heuristic of the paragraph in the middle
+            # of a batch — the indexed loop then works on a map that is rebuilt only when a run is split, which the
+            # model (always a fresh map) does not reproduce (DESIGN.md §12.6)
+            return seg
         if not ws or rng.random() < skip_p or (seg.startswith("## ") and seg.upper() == seg):
             # (an ALL-CAPS bold paragraph is a heading only by heuristic: rewriting its words would change that)
             return seg
